@@ -61,6 +61,12 @@ func init() {
 			// bearing / distance, midpoint
 			bearing := c.rng.Float64()*360 - 180
 			d := c.rng.Float64() * 5e6
+			if i%4 == 0 { // the cardinal and half-cardinal bearings exactly, from high latitudes too (the way leads over a pole)
+				bearing = []float64{0, 180, -180, 90, -90, 45, -135}[c.rng.Intn(7)]
+				if c.rng.Intn(2) == 0 {
+					a[1] = []float64{1, -1}[c.rng.Intn(2)] * (70 + c.rng.Float64()*19)
+				}
+			}
 			if c.rng.Intn(10) == 0 {
 				d = 0
 			}
@@ -105,6 +111,19 @@ func init() {
 				default:
 					g = orb.Collection{ls, orb.Point{1, 2}, orb.MultiLineString{ls}, orb.Collection{orb.Ring(ls)}}
 					w, wh = 3*s1, 3*s1h
+				}
+				if i%8 == 0 { // a box is measured as the ring it denotes: four sides, each a great-circle (or fast) distance
+					b := orb.MultiPoint(ls).Bound()
+					r := b.ToRing()
+					w, wh = 0, 0
+					for j := 0; j+1 < len(r); j++ {
+						w += geo.Distance(r[j], r[j+1])
+						wh += geo.DistanceHaversine(r[j], r[j+1])
+					}
+					g = b
+					if c.rng.Intn(2) == 0 {
+						g = orb.Collection{b, orb.Point{3, 3}}
+					}
 				}
 				c.emit(map[string]interface{}{"k": "glen", "res": um(geo.Length(g) - w), "resh": um(geo.LengthHaversine(g) - wh), "nt": 1})
 			}
@@ -183,8 +202,16 @@ func init() {
 				hole.Reverse() // holes of either winding
 			}
 			poly := orb.Polygon{r, hole}
-			pa := geo.Area(poly)
 			want := math.Abs(base) - math.Abs(geo.SignedArea(hole))
+			for h := c.rng.Intn(3); h > 0; h-- { // further holes, of either winding: each is subtracted
+				h2 := orb.Ring{{float64(lon0 + 3 + h), float64(lat0 + 1)}, {float64(lon0 + 4 + h), float64(lat0 + 1)}, {float64(lon0 + 3 + h), float64(lat0 + 2 + h)}}
+				if c.rng.Intn(2) == 0 {
+					h2.Reverse()
+				}
+				poly = append(poly, h2)
+				want -= math.Abs(geo.SignedArea(h2))
+			}
+			pa := geo.Area(poly)
 			mp := orb.MultiPolygon{poly, {r}}
 			sign := 0
 			if base > 0 {
